@@ -58,10 +58,11 @@ var aclNames = []string{"", "a", "a/", "a/b", "ab", "web", "web-sidecar-proxy", 
 var aclKinds = []string{"key", "service", "node", "session", "agent", "event", "query"}
 
 type aclRule struct {
-	kind   string // key service node session agent event query | acl operator keyring
-	prefix bool
-	name   string
-	level  string
+	kind       string // key service node session agent event query | acl operator keyring
+	prefix     bool
+	name       string
+	level      string
+	intentions string // service rules only; "" = not specified
 }
 
 func (r aclRule) hcl() string {
@@ -73,16 +74,19 @@ func (r aclRule) hcl() string {
 	if r.prefix {
 		k += "_prefix"
 	}
+	if r.intentions != "" {
+		return fmt.Sprintf("%s %q { policy = %q intentions = %q }", k, r.name, r.level, r.intentions)
+	}
 	return fmt.Sprintf("%s %q { policy = %q }", k, r.name, r.level)
 }
 
-var aclRuleRe = regexp.MustCompile(`(\w+?)(_prefix)? "([^"]*)" \{ policy = "(\w+)" \}`)
+var aclRuleRe = regexp.MustCompile(`(\w+?)(_prefix)? "([^"]*)" \{ policy = "(\w+)"(?: intentions = "(\w+)")? \}`)
 var aclSingleRe = regexp.MustCompile(`(?m)^(acl|operator|keyring) = "(\w+)"$`)
 
 func parseACLRules(text string) []aclRule {
 	var out []aclRule
 	for _, m := range aclRuleRe.FindAllStringSubmatch(text, -1) {
-		out = append(out, aclRule{kind: m[1], prefix: m[2] != "", name: m[3], level: m[4]})
+		out = append(out, aclRule{kind: m[1], prefix: m[2] != "", name: m[3], level: m[4], intentions: m[5]})
 	}
 	for _, m := range aclSingleRe.FindAllStringSubmatch(text, -1) {
 		out = append(out, aclRule{kind: m[1], level: m[2]})
@@ -98,6 +102,9 @@ func genPolicyRules(rng *rand.Rand) string {
 			level: simkit.Pick(rng, []string{"read", "write", "deny", "write", "read"})}
 		if r.kind == "key" && simkit.Chance(rng, 25) {
 			r.level = "list"
+		}
+		if r.kind == "service" && simkit.Chance(rng, 40) {
+			r.intentions = simkit.Pick(rng, []string{"read", "write", "deny"})
 		}
 		if simkit.Chance(rng, 10) {
 			r = aclRule{kind: simkit.Pick(rng, []string{"acl", "operator", "keyring"}), level: simkit.Pick(rng, []string{"read", "write", "deny"})}
@@ -131,13 +138,14 @@ func (w ACLWorld) Generate(rng *rand.Rand, tier string, runIdx uint64) simkit.Pl
 		case 1:
 			return Step{Op: "acl.policy.delete", ID: PolicyUUID(ids.retire("p", n4()))}
 		case 2:
-			id := n4()
+			id := 1 + rng.IntN(3)
 			s := Step{Op: "acl.role.set", ID: RoleUUID(ids.cur("r", id)), Name: fmt.Sprintf("role%d", id)}
 			for i, n := 0, 1+rng.IntN(2); i < n; i++ {
 				s.List = append(s.List, PolicyUUID(ids.cur("p", n4())))
 			}
-			if simkit.Chance(rng, 25) {
-				s.Svc = simkit.Pick(rng, []string{"web", "api"})
+			if simkit.Chance(rng, 50) {
+				s.Svc = simkit.Pick(rng, []string{"web", "web", "api"})
+				s.Dest = simkit.Pick(rng, []string{"", "dc1", "dc1", "dc2", "dc2", "dc1,dc2"})
 			}
 			return s
 		case 3:
@@ -148,11 +156,15 @@ func (w ACLWorld) Generate(rng *rand.Rand, tier string, runIdx uint64) simkit.Pl
 			for i, n := 0, rng.IntN(4); i < n; i++ {
 				s.List = append(s.List, PolicyUUID(ids.cur("p", n4())))
 			}
-			if simkit.Chance(rng, 35) {
-				s.List2 = []string{RoleUUID(ids.cur("r", n4()))}
+			if simkit.Chance(rng, 50) {
+				s.List2 = []string{RoleUUID(ids.cur("r", 1+rng.IntN(3)))}
+				if simkit.Chance(rng, 50) {
+					s.List2 = append(s.List2, RoleUUID(ids.cur("r", 1+rng.IntN(3))))
+				}
 			}
 			if simkit.Chance(rng, 20) {
 				s.Svc = simkit.Pick(rng, []string{"web", "api"})
+				s.Dest = simkit.Pick(rng, []string{"", "", "dc1", "dc2"})
 			}
 			if simkit.Chance(rng, 12) {
 				s.Node = simkit.Pick(rng, []string{"n1", "n2"})
@@ -174,8 +186,36 @@ func (w ACLWorld) Generate(rng *rand.Rand, tier string, runIdx uint64) simkit.Pl
 	for i, n := 0, 4+rng.IntN(8); i < n; i++ {
 		p.Steps = append(p.Steps, aclWrite())
 	}
+	// macro: two tokens sharing a role whose identity or policy overlaps with what only one of
+	// them has through another role, resolved one after the other through the same resolver
+	shared := func() {
+		ra, rb := 1+rng.IntN(3), 1+rng.IntN(3)
+		if ra == rb {
+			rb = ra%3 + 1
+		}
+		svc := simkit.Pick(rng, []string{"web", "api"})
+		dcs := []string{"", "dc1", "dc2", "dc1,dc2"}
+		ta, tb := n4(), n4()
+		if ta == tb {
+			tb = ta%4 + 1
+		}
+		client := simkit.Chance(rng, 40)
+		p.Steps = append(p.Steps,
+			Step{Op: "acl.role.set", ID: RoleUUID(ids.cur("r", ra)), Name: fmt.Sprintf("role%d", ra), Svc: svc, Dest: simkit.Pick(rng, dcs), List: []string{PolicyUUID(ids.cur("p", n4()))}},
+			Step{Op: "acl.role.set", ID: RoleUUID(ids.cur("r", rb)), Name: fmt.Sprintf("role%d", rb), Svc: svc, Dest: simkit.Pick(rng, dcs), List: []string{PolicyUUID(ids.cur("p", n4()))}},
+			Step{Op: "acl.token.set", ID: TokenUUID(ta), Text: SecretUUID(ta), List2: []string{RoleUUID(ids.cur("r", rb)), RoleUUID(ids.cur("r", ra))}},
+			Step{Op: "acl.token.set", ID: TokenUUID(tb), Text: SecretUUID(tb), List2: []string{RoleUUID(ids.cur("r", rb))}})
+		if simkit.Chance(rng, 50) {
+			p.Steps = append(p.Steps, Step{Op: "resolve", Text: SecretUUID(tb), Flag: client})
+		}
+		p.Steps = append(p.Steps, Step{Op: "resolve", Text: SecretUUID(ta), Flag: client}, Step{Op: "resolve", Text: SecretUUID(tb), Flag: client})
+	}
 	n := 14 + rng.IntN(50)
 	for len(p.Steps) < n {
+		if simkit.Chance(rng, 3) {
+			shared()
+			continue
+		}
 		switch simkit.Weighted(rng, []int{30, 36, 12, 6, 16}) {
 		case 0:
 			p.Steps = append(p.Steps, aclWrite())
@@ -208,7 +248,9 @@ type aclWorldState struct {
 	ttl       time.Duration
 	down      string
 	rpcFail   int
-	rpcErrs   int // RPC failures during the current resolution
+	rpcErrs   int      // RPC failures during the current resolution
+	shadow    *Replica // applies the same log and is never handed to a resolver: the reference reads it
+	shadowAt  int
 	lastACL   time.Time
 	lastFault time.Time
 }
@@ -269,6 +311,63 @@ func refDecide(rules []aclRule, kind, name, need string, defAllow bool) bool {
 	return defAllow
 }
 
+// refIntention: access to the intentions of a service name follows the service rules: the
+// explicit intentions levels of the rules for the name merge by precedence on their own; when
+// none is given, service read or write grants intention read and service deny denies.
+func refIntention(rules []aclRule, name, need string, defAllow bool) bool {
+	type acc struct{ pol, ixn string }
+	var exact *acc
+	prefixes := map[string]*acc{}
+	for _, ru := range rules {
+		if ru.kind != "service" {
+			continue
+		}
+		var a *acc
+		switch {
+		case !ru.prefix && ru.name == name:
+			if exact == nil {
+				exact = &acc{}
+			}
+			a = exact
+		case ru.prefix && strings.HasPrefix(name, ru.name):
+			if prefixes[ru.name] == nil {
+				prefixes[ru.name] = &acc{}
+			}
+			a = prefixes[ru.name]
+		default:
+			continue
+		}
+		a.pol = mergeLevel(a.pol, ru.level)
+		if ru.intentions != "" {
+			a.ixn = mergeLevel(a.ixn, ru.intentions)
+		}
+	}
+	eff := func(a *acc) bool {
+		level := a.ixn
+		if level == "" {
+			level = "deny"
+			if a.pol == "read" || a.pol == "write" {
+				level = "read"
+			}
+		}
+		return enforce(level, need)
+	}
+	if exact != nil {
+		return eff(exact)
+	}
+	best := ""
+	var bestAcc *acc
+	for p, a := range prefixes {
+		if bestAcc == nil || len(p) > len(best) {
+			best, bestAcc = p, a
+		}
+	}
+	if bestAcc != nil {
+		return eff(bestAcc)
+	}
+	return defAllow
+}
+
 type aclProbe struct{ kind, name, need string }
 
 func aclProbes() []aclProbe {
@@ -283,6 +382,11 @@ func aclProbes() []aclProbe {
 	}
 	for _, k := range []string{"acl", "operator", "keyring"} {
 		out = append(out, aclProbe{k, "", "read"}, aclProbe{k, "", "write"})
+	}
+	for _, n := range aclNames {
+		if n != "" {
+			out = append(out, aclProbe{"intention", n, "read"}, aclProbe{"intention", n, "write"})
+		}
 	}
 	return out
 }
@@ -332,6 +436,10 @@ func askAuthorizer(a acl.Authorizer, p aclProbe) bool {
 		d = a.KeyringRead(nil)
 	case "keyring:write":
 		d = a.KeyringWrite(nil)
+	case "intention:read":
+		d = a.IntentionRead(p.name, nil)
+	case "intention:write":
+		d = a.IntentionWrite(p.name, nil)
 	default:
 		panic("probe " + p.kind + ":" + p.need)
 	}
@@ -339,8 +447,16 @@ func askAuthorizer(a acl.Authorizer, p aclProbe) bool {
 }
 
 // effectiveRules: the rules the token's own policies, roles and identities carry right now.
+func (s *aclWorldState) syncShadow() {
+	for ; s.shadowAt < len(s.C.Log); s.shadowAt++ {
+		if _, perr := s.shadow.Apply(s.C.Log[s.shadowAt]); perr != nil {
+			panic(perr)
+		}
+	}
+}
+
 func (s *aclWorldState) effectiveRules(tok *structs.ACLToken, dc string) (rules []aclRule, desc []string) {
-	st := s.C.L.State()
+	st := s.shadow.State()
 	addPolicy := func(id, via string) {
 		_, p, _ := st.ACLPolicyGetByID(nil, id, nil)
 		if p == nil {
@@ -359,21 +475,32 @@ func (s *aclWorldState) effectiveRules(tok *structs.ACLToken, dc string) (rules 
 		desc = append(desc, fmt.Sprintf("%s(%s): %s", p.Name, via, strings.ReplaceAll(p.Rules, "\n", "; ")))
 		rules = append(rules, parseACLRules(p.Rules)...)
 	}
-	svcIdent := func(name, via string) {
+	svcIdent := func(si *structs.ACLServiceIdentity, via string) {
+		if len(si.Datacenters) > 0 {
+			ok := false
+			for _, d := range si.Datacenters {
+				ok = ok || d == dc
+			}
+			if !ok {
+				desc = append(desc, fmt.Sprintf("service identity %s(%s) scoped to %v", si.ServiceName, via, si.Datacenters))
+				return
+			}
+		}
+		name := si.ServiceName
 		desc = append(desc, "service identity "+name+"("+via+")")
-		rules = append(rules, aclRule{"service", false, name, "write"}, aclRule{"service", false, name + "-sidecar-proxy", "write"},
-			aclRule{"service", true, "", "read"}, aclRule{"node", true, "", "read"})
+		rules = append(rules, aclRule{kind: "service", prefix: false, name: name, level: "write"}, aclRule{kind: "service", prefix: false, name: name + "-sidecar-proxy", level: "write"},
+			aclRule{kind: "service", prefix: true, name: "", level: "read"}, aclRule{kind: "node", prefix: true, name: "", level: "read"})
 	}
 	for _, l := range tok.Policies {
 		addPolicy(l.ID, "token")
 	}
 	for _, si := range tok.ServiceIdentities {
-		svcIdent(si.ServiceName, "token")
+		svcIdent(si, "token")
 	}
 	for _, ni := range tok.NodeIdentities {
 		if ni.Datacenter == dc {
 			desc = append(desc, "node identity "+ni.NodeName)
-			rules = append(rules, aclRule{"node", false, ni.NodeName, "write"}, aclRule{"service", true, "", "read"})
+			rules = append(rules, aclRule{kind: "node", prefix: false, name: ni.NodeName, level: "write"}, aclRule{kind: "service", prefix: true, name: "", level: "read"})
 		}
 	}
 	for _, rl := range tok.Roles {
@@ -385,7 +512,7 @@ func (s *aclWorldState) effectiveRules(tok *structs.ACLToken, dc string) (rules 
 			addPolicy(l.ID, role.Name)
 		}
 		for _, si := range role.ServiceIdentities {
-			svcIdent(si.ServiceName, role.Name)
+			svcIdent(si, role.Name)
 		}
 	}
 	return rules, desc
@@ -456,9 +583,11 @@ func (s *aclWorldState) judgeResolve(i int, st Step) *simkit.Violation {
 		}
 		return &simkit.Violation{Property: prop, Class: class, Invariant: inv, Step: i, Culprit: map[bool]string{true: "client-resolver", false: "server-resolver"}[st.Flag], Detail: detail}
 	}
-	_, tok, _ := s.C.L.State().ACLTokenGetBySecret(nil, st.Text, nil)
+	s.syncShadow()
+	_, tok, _ := s.shadow.State().ACLTokenGetBySecret(nil, st.Text, nil)
 	now := time.Now()
 	authz, err := s.resolve(st.Text, st.Flag)
+	s.syncShadow()
 	faulted := s.rpcErrs > 0
 	s.r.Eventf("resolve %s client=%v -> err=%v faultedRPCs=%d", st.Text[len(st.Text)-2:], st.Flag, err, s.rpcErrs)
 	s.r.Sig(fmt.Sprintf("resolve:%v:%v:%v", st.Flag, err != nil, tok != nil))
@@ -503,6 +632,9 @@ func (s *aclWorldState) judgeResolve(i int, st Step) *simkit.Violation {
 	s.r.Hit("probe.decision-tables-compared")
 	for _, p := range aclProbes() {
 		want := refDecide(rules, p.kind, p.name, p.need, s.defAllow)
+		if p.kind == "intention" {
+			want = refIntention(rules, p.name, p.need, s.defAllow)
+		}
 		if got := askAuthorizer(authz, p); got != want {
 			return mk("C08", "decision-mismatch", "decision-equals-reference-semantics",
 				fmt.Sprintf("token %s: %s %q %s is allowed=%v, the reference semantics say %v (default policy allow=%v)\n  rules in effect:\n    %s",
@@ -786,6 +918,7 @@ func (w ACLWorld) execute(p *Plan, r *simkit.Run) *simkit.Violation {
 	s := &aclWorldState{w: w, r: r, defAllow: p.Cfg.Extra["default"] == "allow", ttl: parseDur(p.Cfg.Extra["ttl"], 30*time.Second), down: p.Cfg.Extra["down"]}
 	s.C = NewCluster(r, parseDur(p.Cfg.GCTTL, 15*time.Minute), parseDur(p.Cfg.GCGran, 30*time.Second))
 	defer s.C.Close()
+	s.shadow = NewReplica("shadow", s.C.GCTTL, s.C.GCGran)
 	settings := consul.ACLResolverSettings{ACLsEnabled: true, Datacenter: "dc1", NodeName: "sim", ACLPolicyTTL: s.ttl, ACLTokenTTL: s.ttl, ACLRoleTTL: s.ttl,
 		ACLDownPolicy: s.down, ACLDefaultPolicy: p.Cfg.Extra["default"]}
 	if settings.ACLDefaultPolicy == "" {
